@@ -14,7 +14,8 @@ Driver for property C09.  One scenario per line:
          or `parse-err <kind>` when the address does not parse
 
   events: af[:refused|connectError|dnsLookup|timeout|other] ac ap ao ax hr he cl rp:<serial>:<0|1> ex:<serial> ca:<0|1>:<r> no:<r> cn:<c> pe:<key> pi:<key>
-          pn:<p>:<r> pc:<p>:<c> dp:<p>          reactions r: n c u r p
+          pn:<p>:<r> pc:<p>:<c> dp:<p> cd:<serial> (the caller cancels the call's Deferred)          reactions r: n c u r p x
+      pend entries: <serial>[c][t]   c = the caller cancelled its Deferred, t = it has a timer
 -/
 open Txdbus.Client.Endpoints Txdbus.Client.Lifecycle Driver
 
@@ -81,6 +82,7 @@ def parseEv (tok : String) : Option Ev :=
   | ["pn", p, r] => do some (.proxyNotify (← p.toNat?) (← parseReaction r))
   | ["pc", p, c] => do some (.proxyCancelNotify (← p.toNat?) (← c.toNat?))
   | ["dp", p] => do some (.dropProxy (← p.toNat?))
+  | ["cd", s] => do some (.cancelCall (← s.toNat?))
   | _ => none
 
 def resName : ConnectResult → String
@@ -96,6 +98,7 @@ def kindName : ErrKind → String
   | .introspectionFailed => "introspectionFailed"
   | .remote => "remote"
   | .timeout => "timeout"
+  | .cancelled => "cancelled"
 
 def fxStr : Fx → String
   | .attempt ep =>
@@ -127,7 +130,7 @@ def stateStr (s : St) : String :=
   "ph=" ++ phaseName s.phase ++
   " fired=" ++ (if s.fired.isEmpty then "-" else ",".intercalate (s.fired.map resName)) ++
   " pend=" ++ (if s.pending.isEmpty then "-" else
-      ",".intercalate (s.pending.map fun c => toString c.serial ++ (if c.timed then "t" else ""))) ++
+      ",".intercalate (s.pending.map fun c => toString c.serial ++ (if c.cancelled then "c" else "") ++ (if c.timed then "t" else ""))) ++
   " timers=" ++ natsStr s.timers ++
   " dc=" ++ natsStr (s.dcCallbacks.map (·.id)) ++
   " reg=" ++ natsStr (s.registry.map (·.2)) ++
